@@ -69,4 +69,8 @@ CLAIMED['C17'] = ('DESIGN.md 4/C17', 'butter_pass executed symbolically through 
     'and the zero-phase squared-Butterworth gain for sinusoids with symbolic amplitude pair against an independent '
     'bilinear-transform magnitude; exact detrending laws through a rational least-squares model of polyfit, element-wise '
     'adders with their rejections, and the running average against the original-sample window mean.')
+CLAIMED['C18'] = ('DESIGN.md 4/C18', 'combine_at_angle / compute_rotated on symbolic component pairs (enumerated angles, offsets, '
+    'parameter names and callables): every scanned value shown to be the measure of that combination; Cluster.same_start '
+    'for 2..4 signals and every master index; Cluster.time_match with symbolic master samples and fill values for every '
+    'lag inside the window (each running-minimum comparison a fork, quadratic misfits decided by z3).')
 NOT_APPLICABLE = {}
